@@ -29,6 +29,7 @@ class _Normalise(ast.NodeTransformer):
 
     def __init__(self):
         self.fn_stack = []
+        self.count_stack = []
 
     def _counts(self, fn):
         c = {}
@@ -60,8 +61,10 @@ class _Normalise(ast.NodeTransformer):
 
     def visit_FunctionDef(self, fn):
         self.fn_stack.append(self._inlinable(fn))
+        self.count_stack.append(self._counts(fn))
         self.generic_visit(fn)
         self.fn_stack.pop()
+        self.count_stack.pop()
         return fn
 
     visit_AsyncFunctionDef = visit_FunctionDef
@@ -89,12 +92,51 @@ class _Normalise(ast.NodeTransformer):
             out = res
         return out
 
+    def _inline_single_use(self, body):
+        """N4: `t = e` immediately followed by a simple statement that contains the ONLY other occurrence of `t` in the function -> that statement with e
+        substituted (e is not a lambda / comprehension / yield, the use is not inside a lambda, comprehension or nested function)."""
+        if not self.count_stack or os.environ.get('VERIF_NO_N4'):
+            return body
+        counts = self.count_stack[-1]
+        out = list(body)
+        i = 0
+        while i + 1 < len(out):
+            s, nxt = out[i], out[i + 1]
+            if (isinstance(s, ast.Assign) and len(s.targets) == 1 and isinstance(s.targets[0], ast.Name) and counts.get(s.targets[0].id, 0) == 2
+                    and not isinstance(s.value, (ast.Yield, ast.YieldFrom, ast.Await))
+                    and isinstance(nxt, (ast.Assign, ast.Expr, ast.Return, ast.AugAssign))):
+                name = s.targets[0].id
+                uses = []
+
+                def find(n, blocked=False):
+                    for ch in ast.iter_child_nodes(n):
+                        b2 = blocked or isinstance(ch, (ast.Lambda, ast.ListComp, ast.SetComp, ast.DictComp, ast.GeneratorExp, ast.FunctionDef))
+                        if isinstance(ch, ast.Name) and ch.id == name and isinstance(ch.ctx, ast.Load):
+                            uses.append((n, ch, b2))
+                        find(ch, b2)
+                find(nxt)
+                if len(uses) == 1 and not uses[0][2]:
+                    parent, use, _ = uses[0]
+                    for field, val in ast.iter_fields(parent):
+                        if val is use:
+                            setattr(parent, field, s.value)
+                        elif isinstance(val, list):
+                            for k, x in enumerate(val):
+                                if x is use:
+                                    val[k] = s.value
+                    del out[i]
+                    if i > 0:
+                        i -= 1
+                    continue
+            i += 1
+        return out
+
     def generic_visit(self, node):
         super().generic_visit(node)
         for field in ('body', 'orelse', 'finalbody'):
             b = getattr(node, field, None)
             if isinstance(b, list):
-                setattr(node, field, self._body(b))
+                setattr(node, field, self._inline_single_use(self._body(b)))
         if isinstance(node, ast.Try):
             for h in node.handlers:
                 h.body = self._body(h.body)
